@@ -231,6 +231,10 @@ static void dump_tables() {
   ROWS(iSimdVVV) BEGIN(iSimdVVV) kv(s, "opcode", d.opcode()); kv(s, "vec_op_type", d.vec_op_type); END
   ROWS(iSimdVVx) BEGIN(iSimdVVx) kv(s, "opcode", d.opcode()); kv(s, "op0_signature", d.op0_signature); kv(s, "op1_signature", d.op1_signature); END
   ROWS(iSimdVVVx) BEGIN(iSimdVVVx) kv(s, "opcode", d.opcode()); kv(s, "op0_signature", d.op0_signature); kv(s, "op1_signature", d.op1_signature); kv(s, "op2_signature", d.op2_signature); END
+  ROWS(fSimdVV) BEGIN(fSimdVV) kv(s, "scalar_op", d.scalar_op()); kv(s, "scalar_hf", d.scalar_hf()); kv(s, "vector_op", d.vector_op()); kv(s, "vector_hf", d.vector_hf()); END
+  ROWS(fSimdVVV) BEGIN(fSimdVVV) kv(s, "scalar_op", d.scalar_op()); kv(s, "scalar_hf", d.scalar_hf()); kv(s, "vector_op", d.vector_op()); kv(s, "vector_hf", d.vector_hf()); END
+  ROWS(fSimdVVVV) BEGIN(fSimdVVVV) kv(s, "scalar_op", d.scalar_op()); kv(s, "scalar_hf", d.scalar_hf()); kv(s, "vector_op", d.vector_op()); kv(s, "vector_hf", d.vector_hf()); END
+  ROWS(iSimdVVVV) BEGIN(iSimdVVVV) kv(s, "opcode", d.opcode); kv(s, "vec_op_type", d.vec_op_type); END
   // file-static tables of a64assembler.cpp
   for (size_t i = 0; i < sizeof(a64::shift_op_to_ld_st_opt_map); i++) printf("row shiftOpToLdStOptMap %zu value=%u\n", i, a64::shift_op_to_ld_st_opt_map[i]);
   for (size_t t = 0; t < a64::SizeOpTable::kCount; t++)
